@@ -348,6 +348,10 @@ func (p *Peer) unpackFrame(content []byte) (MsgCode, []byte, error) {
 	if err != nil {
 		return 0, nil, err
 	}
+	// a frame carries at least the 4 bytes of the message code
+	if len(originData) < 4 {
+		return 0, nil, ErrUnavailablePackage
+	}
 	code := binary.BigEndian.Uint32(originData[:4])
 	if len(originData) == 4 {
 		return MsgCode(code), nil, nil
